@@ -18,6 +18,8 @@ Read from the working tree on every run:
       laterCancelMarks tickit_watch_cancel marks a deferred callback it did not find in t->laters WATCH_NONE (after the
                       UNBIND notification) and tickit_evloop_invoke_timers skips marked entries, clearing UNBIND of the
                       entry it is about to invoke
+      processLinked   tickit_watch_process links the watch of a pre-exited child and keeps its later in process.notify,
+                      tickit_watch_cancel cancels that later, process_notify clears the pointer
 """
 import re, select
 
@@ -162,6 +164,15 @@ def run(ctx):
                        re.search(r"if\s*\(\s*later\s*->\s*type\s*==\s*WATCH_LATER\s*\)", inv) and
                        re.search(r"later\s*->\s*flags\s*&=\s*~\s*TICKIT_BIND_UNBIND", inv))
 
+    # processLinked: tickit_watch_process keeps the later of a pre-exited child in process.notify and links the watch;
+    # tickit_watch_cancel cancels that later; process_notify clears the pointer
+    wp = body_of(tk, "tickit_watch_process") or ""
+    pn = body_of(tk, "process_notify") or ""
+    process_linked = bool(re.search(r"process\s*\.\s*notify\s*=\s*tickit_watch_later\s*\(", wp) and
+                          not re.search(r"tickit_watch_later\s*\([^;]*;\s*return\s+watch\s*;", wp) and
+                          re.search(r"if\s*\(\s*this\s*->\s*process\s*\.\s*notify\s*\)\s*tickit_watch_cancel\s*\(\s*t\s*,\s*this\s*->\s*process\s*\.\s*notify\s*\)", wc) and
+                          re.search(r"process\s*\.\s*notify\s*=\s*NULL", pn))
+
     def lst(pairs):
         return "[" + ", ".join(f"({a}, {b})" for a, b in pairs) + "]"
 
@@ -192,8 +203,9 @@ def run(ctx):
     body += f"def sigSnapshot : Bool := {b(sig_snapshot)}\n"
     body += f"def procSnapshot : Bool := {b(proc_snapshot)}\n"
     body += f"def laterCancelMarks : Bool := {b(later_marks)}\n"
+    body += f"def processLinked : Bool := {b(process_linked)}\n"
     body += "end Tickit.Gen.EvLoop\n"
     write("EvLoop", body)
     info["evloop"] = {"masks": masks, "timersPop": timers_pop, "errnoSaved": errno_saved, "pendingInit": pending_init,
-                      "reventsCleared": revents_cleared, "invokeTypeSaved": invoke_type_saved, "sigSnapshot": sig_snapshot, "procSnapshot": proc_snapshot, "laterCancelMarks": later_marks, "insertCmp": insert_cmp, "dueCmp": due_cmp,
+                      "reventsCleared": revents_cleared, "invokeTypeSaved": invoke_type_saved, "sigSnapshot": sig_snapshot, "procSnapshot": proc_snapshot, "laterCancelMarks": later_marks, "processLinked": process_linked, "insertCmp": insert_cmp, "dueCmp": due_cmp,
                       "unreadable": notes}
